@@ -219,20 +219,42 @@ fn c13_oracle(r: &TrafficRun, obs: &mut Obs) -> CaseResult {
                 }
             }
             // 'one bounded message cycle and GAP poll per station': in the stable ring a station sends
-            // at most one FDL status request of its own (no live list runs here) per token visit
+            // at most one FDL status request of its own (no live list runs here) per token visit.
+            // Exempt: the scan of the whole GAP right after claiming a token (C12) - a claim is a
+            // token to itself after at least five slot times of silence, repeated once.
             {
                 let b = r.sim.bus.0.borrow();
-                for x in 0..n {
-                    let mut polls_in_visit = 0;
-                    for rec in b.trace.iter().filter(|rec| rec.sender == x && rec.start_ns > (c + 2 * rot + ttr_us) * 1000) {
-                        match rc::decode_one(&rec.bytes) {
-                            Some(RefFrame::Token { .. }) => polls_in_visit = 0,
-                            Some(RefFrame::Data { fc: 0x49, dsap: None, ssap: None, da, .. }) => {
-                                polls_in_visit += 1;
-                                ensure!(polls_in_visit <= 1, "gap-polls-per-visit", "station #{} sent {} GAP polls (the last to #{da}) during one token visit in the stable ring at {} ns", r.sim.nodes[x].addr, polls_in_visit, rec.start_ns);
+                let from_ns = (c + 2 * rot + ttr_us) * 1000;
+                let quiet_ns = 5 * r.cfg.bits_ns(u64::from(r.cfg.slot_bits));
+                let mut polls_in_visit = vec![0u32; n];
+                let mut claim_tokens = vec![0u32; n]; // > 0: in the claim / post-claim scan
+                let mut prev_end = i64::MIN / 2;
+                for (ri, rec) in b.trace.iter().enumerate() {
+                    let silence = rec.start_ns - prev_end;
+                    prev_end = prev_end.max(rec.end_ns);
+                    let x = rec.sender;
+                    if x >= n {
+                        continue;
+                    }
+                    match rc::decode_one(&rec.bytes) {
+                        Some(RefFrame::Token { da, sa }) => {
+                            polls_in_visit[x] = 0;
+                            if da == sa && (silence >= quiet_ns || ri == 0) {
+                                claim_tokens[x] = 1;
+                            } else if da == sa && claim_tokens[x] == 1 {
+                                claim_tokens[x] = 2;
+                            } else {
+                                claim_tokens[x] = 0;
                             }
-                            _ => {}
                         }
+                        Some(RefFrame::Data { fc: 0x49, dsap: None, ssap: None, da, .. }) if rec.start_ns > from_ns && claim_tokens[x] == 0 => {
+                            polls_in_visit[x] += 1;
+                            if polls_in_visit[x] > 1 {
+                                let tail: String = b.trace.iter().filter(|q| q.start_ns <= rec.start_ns).rev().take(14).collect::<Vec<_>>().into_iter().rev().map(|q| format!("\n  {} ns node{} {}", q.start_ns, q.sender, crate::props::c09::hex(&q.bytes))).collect();
+                                fail!("gap-polls-per-visit", "station #{} sent {} GAP polls (the last to #{da}) during one token visit in the stable ring at {} ns{}", r.sim.nodes[x].addr, polls_in_visit[x], rec.start_ns, tail);
+                            }
+                        }
+                        _ => {}
                     }
                 }
             }
